@@ -67,7 +67,7 @@ Definition inc_step (I : list (list nat)) (Y : list T) (idx idx_many shapes : li
   let lm := nth mode idx_many O in
   if lm =? 0 then Err ValueError else
   let Ic := slice (nth mode idx O) (nth (S mode) idx O) I in
-  match Ic with [] => Err IndexError | _ =>
+  if length Ic =? 0 then Err IndexError else   (* np.array([])[:, 0, :] *)
   (* M = np.array([get(Y_res[:mode], i, _to_item=False) for i in I_curr[::idx_many[mode], :mode]])[:, 0, :] *)
   let M := mat_rows r0 (map (fun i => run K [1] (firstn mode (cores s)) (firstn mode i)) (every [] lm Ic)) in
   (* Y_curr = Y[idx[mode]:idx[mode+1]].reshape(-1, idx_many[mode]) *)
@@ -86,8 +86,7 @@ Definition inc_step (I : list (list nat)) (Y : list T) (idx idx_many shapes : li
   let Xs := tab n (fun i => lstsq (nlsq s + i) (Ai i) (bi i)) in
   let G := mkcore r0 n r1' (fun a i b => mget K (nth i Xs (mk_mat O O [])) a b) in
   Ok (mk_st (cores s ++ [G]) (nsvd s + (if skel then 1 else 0)) (nlsq s + n)
-            (trace s ++ (if skel then [CSvd Y0] else []) ++ tab n (fun i => CLsq (Ai i) (bi i))))
-  end.
+            (trace s ++ (if skel then [CSvd Y0] else []) ++ tab n (fun i => CLsq (Ai i) (bi i)))).
 
 Definition inc_loop (I : list (list nat)) (Y : list T) (idx idx_many shapes : list nat) (d : nat)
   (e : T) (rcap : Z) (modes : list nat) (s0 : result st) : result st :=
